@@ -1059,6 +1059,13 @@ def _tpl_loop(rng):
     ]
     data = [[0, 0, 0], [1, 0, 0], [2, 0, 1], [3, 0, 3], [3, 1, 0]]
     sig = [_s(rng, 0, 0, 1), _s(rng, 1, 0, 2), _s(rng, 2, 2, 0), _s(rng, 0, 0, 3)]
+    if rng.random() < 0.25:
+        # the switch itself fails in a later iteration, holding the truth value of an earlier one: it must emit
+        # `failed` only (no branch), so the loop stops there
+        nodes[2] = _node("if", ["ND"], cache=False, fail=[rng.randint(2, 3)])
+        if rng.random() < 0.5:
+            nodes.append(_node("term", ["d", "d", "d"], cache=False))
+            sig.append(_s(rng, 2, 1, len(nodes) - 1))
     if rng.random() < 0.5:
         nodes.append(_node("term", ["d", "d", "d"], cache=rng.random() < 0.5))
         j = len(nodes) - 1
